@@ -424,7 +424,12 @@ impl DeconstructedPat {
             PatKind::Binding(_ident) => Constructor::Wildcard(WildcardReason::VarPat),
             PatKind::Bool(b) => Constructor::Bool(*b),
             PatKind::Int(i) => Constructor::Int(*i),
-            PatKind::Float(f) => Constructor::Float(f.clone()),
+            // compare float patterns by value, not by spelling: `1.0` and `1.00` are the same pattern
+            PatKind::Float(f) => Constructor::Float(
+                f.parse::<f64>()
+                    .map(|v| format!("{v:?}"))
+                    .unwrap_or_else(|_| f.clone()),
+            ),
             PatKind::Str(s) => Constructor::String(s.clone()),
             PatKind::Void => Constructor::Product,
             PatKind::Tuple(elems) => {
